@@ -50,6 +50,9 @@ type Unit struct {
 	cellStatic map[string]Val
 	hyps      []hyp
 	ghostSyms []string
+	frameInv  bool
+	allowedRefs map[string][]string
+	allowedWhole map[string]bool
 	entryState *state
 	structNames map[string]string
 	structOwner map[string]string
